@@ -10,6 +10,7 @@ require (
 	github.com/tikv/pd v0.0.0
 	go.etcd.io/etcd v0.5.0-alpha.5.0.20191023171146-3cf2f69b5738
 	go.uber.org/zap v1.16.0
+	google.golang.org/grpc v1.26.0
 )
 
 replace github.com/tikv/pd => /repo
